@@ -372,7 +372,15 @@ fn run_grid<T: BE>(c: &GridCase, lx: &mut Local) {
                                 return Err(format!("Grid::index({:?}) returned {} ranges", last, cell.len()));
                             }
                         }
+                        // the same observations as a column-major matrix and as a view with the columns reversed
+                        // twice: the histogram must be the same
                         let h = m.histogram(grid);
+                        let mf = m.clone().reversed_axes().as_standard_layout().into_owned().reversed_axes();
+                        let gb2 = GridBuilder::<$ty<T>>::from_array(&mf).map_err(|e| format!("histogram: the column-major copy of the observations is rejected: {:?}", e))?;
+                        let hf = mf.histogram(gb2.build());
+                        if hf.counts() != h.counts() {
+                            return Err(format!("histogram: of the column-major copy of the observations has counts summing to {}, of the row-major matrix {}", hf.counts().sum(), h.counts().sum()));
+                        }
                         Ok((h.counts().sum(), shape))
                     }
                     Err(e) => Err(format!("{:?}", e)),
@@ -390,6 +398,10 @@ fn run_grid<T: BE>(c: &GridCase, lx: &mut Local) {
             Err(msg) => {
                 lx.fail("C12/panic", || format!("[{}] GridBuilder<{:?}> / histogram panicked: {}; {:?}", T::NAME, c.strat, msg, c));
                 0
+            }
+            Ok(Err(e)) if e.starts_with("histogram:") => {
+                lx.fail("C12/histogram-total", || format!("[{}] GridBuilder<{:?}>: {}; {:?}", T::NAME, c.strat, e, c));
+                3
             }
             Ok(Err(e)) if e.starts_with("Grid::") => {
                 lx.fail("C12/grid-accessors-disagree", || format!("[{}] GridBuilder<{:?}>: {}; {:?}", T::NAME, c.strat, e, c));
